@@ -125,6 +125,7 @@ type sfWorld struct {
 	decls map[*types.Func]*ast.FuncDecl
 	infoOf map[*types.Func]*types.Info
 	files int
+	encPrelude string // encDelegating: "" = plain pattern; non-empty on entry = accept a prelude, on exit = the prelude method
 }
 
 func sfLoad(repo string) (*sfWorld, error) {
@@ -506,6 +507,8 @@ type sfEq struct {
 	data   types.Object // raw-body class: this local of the first function stands for `sr.ReadBytes(hdr.payloadLen())` in the second
 	sr, hd types.Object // ... with sr / hdr the parameters of the second function
 	nData  int
+	lenData bool // additionally: `len(data)` in the first function stands for `hdr.payloadLen()` in the second
+	nLen   int
 	enc    bool // Encode <-> EncodeSW methods of the same receiver type, EncodeHeader <-> EncodeHeaderSW, EncodeContainer <-> EncodeContainerSW
 }
 
@@ -635,12 +638,19 @@ func (q *sfEq) node0(a, b ast.Node) bool {
 			if !ok || se.Sel.Name != "ReadBytes" || !sfIs(q.ib, se.X, q.sr) {
 				return false
 			}
-			pc, ok := c.Args[0].(*ast.CallExpr)
-			if !ok || len(pc.Args) != 0 {
-				return false
+			return sfIsPayloadLen(q.ib, c.Args[0], q.hd)
+		}
+		// len(data) on the reader path is hdr.payloadLen() on the SR path (readBoxBody returns exactly that many bytes or an error)
+		if q.lenData {
+			if ca, ok := a.(*ast.CallExpr); ok && len(ca.Args) == 1 {
+				if fid := sfIdent(ca.Fun); fid != nil && fid.Name == "len" && q.ia.Uses[fid] == types.Universe.Lookup("len") {
+					if id, ok := ca.Args[0].(*ast.Ident); ok && q.ia.Uses[id] == q.data {
+						q.nLen++
+						be, ok := b.(ast.Expr)
+						return ok && sfIsPayloadLen(q.ib, be, q.hd)
+					}
+				}
 			}
-			ps, ok := pc.Fun.(*ast.SelectorExpr)
-			return ok && ps.Sel.Name == "payloadLen" && sfIs(q.ib, ps.X, q.hd)
 		}
 	}
 	if sfNilNode(a) || sfNilNode(b) {
@@ -881,15 +891,184 @@ func (w *sfWorld) leafClass(r, s *types.Func) string {
 		return ""
 	}
 	q := mk()
-	q.data, q.sr, q.hd = ri.Defs[dataId], ss.Params().At(2), ss.Params().At(0)
+	q.data, q.sr, q.hd, q.lenData = ri.Defs[dataId], ss.Params().At(2), ss.Params().At(0), true
 	if !q.stmts(rest[:n-1], sst[:n-1]) || !q.node(lr.Results[0], ls.Results[0]) || q.nData != 1 {
 		return ""
 	}
-	// S uses sr exactly twice (ReadBytes, AccError); R uses r once (readBoxBody) and data once
-	if sfUses(si, sd.Body, ss.Params().At(2)) != 2 || sfUses(ri, rd.Body, rs.Params().At(2)) != 1 || sfUses(ri, rd.Body, ri.Defs[dataId]) != 1 {
+	// S uses sr exactly twice (ReadBytes, AccError); R uses r once (readBoxBody) and data once (+ inside len(data), which is hdr.payloadLen() in S)
+	if sfUses(si, sd.Body, ss.Params().At(2)) != 2 || sfUses(ri, rd.Body, rs.Params().At(2)) != 1 || sfUses(ri, rd.Body, ri.Defs[dataId]) != 1+q.nLen {
 		return ""
 	}
 	return "raw-body"
+}
+
+// sfIsPayloadLen: e is `hdr.payloadLen()` or its definition `int(hdr.Size) - hdr.Hdrlen`
+func sfIsPayloadLen(info *types.Info, e ast.Expr, hdr types.Object) bool {
+	if pc, ok := e.(*ast.CallExpr); ok && len(pc.Args) == 0 {
+		ps, ok := pc.Fun.(*ast.SelectorExpr)
+		return ok && ps.Sel.Name == "payloadLen" && sfIs(info, ps.X, hdr)
+	}
+	b, ok := e.(*ast.BinaryExpr)
+	if !ok || b.Op != token.SUB {
+		return false
+	}
+	conv, ok := b.X.(*ast.CallExpr)
+	if !ok || len(conv.Args) != 1 {
+		return false
+	}
+	if fid := sfIdent(conv.Fun); fid == nil || fid.Name != "int" || info.Uses[fid] != types.Universe.Lookup("int") {
+		return false
+	}
+	sx, ok1 := conv.Args[0].(*ast.SelectorExpr)
+	sy, ok2 := b.Y.(*ast.SelectorExpr)
+	return ok1 && ok2 && sx.Sel.Name == "Size" && sy.Sel.Name == "Hdrlen" && sfIs(info, sx.X, hdr) && sfIs(info, sy.X, hdr)
+}
+
+// sfReadBodyPrologue: the body starts `data, err := readBoxBody(r, hdr); if err != nil { return nil, err }`; returns the object of data
+func (w *sfWorld) sfReadBodyPrologue(ri *types.Info, st []ast.Stmt, rs *types.Signature) types.Object {
+	if len(st) < 3 {
+		return nil
+	}
+	a1, ok := st[0].(*ast.AssignStmt)
+	if !ok || a1.Tok != token.DEFINE || len(a1.Lhs) != 2 || len(a1.Rhs) != 1 {
+		return nil
+	}
+	c1, ok := a1.Rhs[0].(*ast.CallExpr)
+	if !ok || !sfFuncIs(sfCallee(ri, c1), "mp4", "readBoxBody") || len(c1.Args) != 2 || !sfIs(ri, c1.Args[0], rs.Params().At(2)) || !sfIs(ri, c1.Args[1], rs.Params().At(0)) {
+		return nil
+	}
+	dataId, errId := sfIdent(a1.Lhs[0]), sfIdent(a1.Lhs[1])
+	if dataId == nil || errId == nil || ri.Defs[dataId] == nil || ri.Defs[errId] == nil {
+		return nil
+	}
+	i2, ok := st[1].(*ast.IfStmt)
+	if !ok || i2.Init != nil || i2.Else != nil || !sfIsErrNotNil(ri, i2.Cond, ri.Defs[errId]) || len(i2.Body.List) != 1 || !sfIsErrReturn(ri, i2.Body.List[0], ri.Defs[errId], 2) {
+		return nil
+	}
+	return ri.Defs[dataId]
+}
+
+// sfIsAccErrCall: e is `sr.AccError()`
+func sfIsAccErrCall(info *types.Info, e ast.Expr, sr types.Object) bool {
+	c, ok := e.(*ast.CallExpr)
+	if !ok || len(c.Args) != 0 {
+		return false
+	}
+	se, ok := c.Fun.(*ast.SelectorExpr)
+	return ok && se.Sel.Name == "AccError" && sfIs(info, se.X, sr)
+}
+
+// bodyFnClass: "body-fn": R is `data, err := readBoxBody(r, hdr); if err != nil { return nil, err }; REST` with REST not using r, and S is
+//   (A) `d := sr.ReadBytes(hdr.payloadLen()); [if sr.AccError() != nil { return nil, sr.AccError() };] REST'` with REST' = REST up to local
+//       names (d for data) and not using sr, or
+//   (B) REST' = REST with `sr.ReadBytes(hdr.payloadLen())` where REST has `data` (exactly once), sr not used otherwise,
+// where in both cases the tail of REST may be `x, err := G(..); if err != nil { return nil, err }; return V, nil` against `return V, err`
+// in REST' (the same outcome class and, without error, the same value).  Both decoders are then the same function of the body bytes
+// (C03_bodyfn_pair_agree); checkAcc reports the AccError test of (A).
+func (w *sfWorld) bodyFnClass(r, s *types.Func) (class string, checkAcc bool) {
+	rd, sd := w.decls[r], w.decls[s]
+	ri, si := w.infoOf[r], w.infoOf[s]
+	if rd == nil || sd == nil || rd.Body == nil || sd.Body == nil {
+		return "", false
+	}
+	rs, ss := r.Type().(*types.Signature), s.Type().(*types.Signature)
+	if rs.Params().Len() != 3 || ss.Params().Len() != 3 || !sfIsSliceReader(ss.Params().At(2).Type()) || !sfTypeIs(rs.Params().At(2).Type(), "io", "Reader") {
+		return "", false
+	}
+	dataR := w.sfReadBodyPrologue(ri, rd.Body.List, rs)
+	if dataR == nil || sfUses(ri, rd.Body, rs.Params().At(2)) != 1 {
+		return "", false
+	}
+	rest := rd.Body.List[2:]
+	sst := sd.Body.List
+	srObj, hdObj := ss.Params().At(2), ss.Params().At(0)
+	mk := func() *sfEq {
+		q := &sfEq{w: w, ia: ri, ib: si, m: map[types.Object]types.Object{}, rev: map[types.Object]types.Object{}}
+		for i := 0; i < 2; i++ {
+			q.m[rs.Params().At(i)], q.rev[ss.Params().At(i)] = ss.Params().At(i), rs.Params().At(i)
+		}
+		return q
+	}
+	// tails: equal statement lists, or R `if err != nil { return nil, err }; return V, nil` against S `return V, err`
+	sameRest := func(q *sfEq, a, b []ast.Stmt) bool {
+		if len(a) == len(b) {
+			q2 := *q
+			q2.m, q2.rev = sfCopyMap(q.m), sfCopyMap(q.rev)
+			if q2.stmts(a, b) {
+				*q = q2
+				return true
+			}
+		}
+		if len(a) != len(b)+1 || len(b) == 0 {
+			return false
+		}
+		n := len(b)
+		if !q.stmts(a[:n-1], b[:n-1]) {
+			return false
+		}
+		ifs, ok1 := a[n-1].(*ast.IfStmt)
+		ra, ok2 := a[n].(*ast.ReturnStmt)
+		rb, ok3 := b[n-1].(*ast.ReturnStmt)
+		if !ok1 || !ok2 || !ok3 || ifs.Init != nil || ifs.Else != nil || len(ifs.Body.List) != 1 || len(ra.Results) != 2 || len(rb.Results) != 2 {
+			return false
+		}
+		cond, ok := ifs.Cond.(*ast.BinaryExpr)
+		if !ok || cond.Op != token.NEQ || !sfIsNil(ri, cond.Y) {
+			return false
+		}
+		errId := sfIdent(cond.X)
+		if errId == nil || ri.Uses[errId] == nil || !sfIsErrReturn(ri, ifs.Body.List[0], ri.Uses[errId], 2) {
+			return false
+		}
+		if r0, ok := ifs.Body.List[0].(*ast.ReturnStmt); !ok || !sfIs(ri, r0.Results[1], ri.Uses[errId]) {
+			return false
+		}
+		errB := sfIdent(rb.Results[1])
+		return sfIsNil(ri, ra.Results[1]) && errB != nil && q.ident(errId, errB) && q.node(ra.Results[0], rb.Results[0])
+	}
+	// (A)
+	if len(sst) >= 2 {
+		if a1, ok := sst[0].(*ast.AssignStmt); ok && a1.Tok == token.DEFINE && len(a1.Lhs) == 1 && len(a1.Rhs) == 1 {
+			if c, ok := a1.Rhs[0].(*ast.CallExpr); ok && len(c.Args) == 1 {
+				se, ok := c.Fun.(*ast.SelectorExpr)
+				dId := sfIdent(a1.Lhs[0])
+				if ok && se.Sel.Name == "ReadBytes" && sfIs(si, se.X, srObj) && sfIsPayloadLen(si, c.Args[0], hdObj) && dId != nil && si.Defs[dId] != nil {
+					k, acc := 1, false
+					if i2, ok := sst[1].(*ast.IfStmt); ok && i2.Init == nil && i2.Else == nil && len(i2.Body.List) == 1 {
+						if b, ok := i2.Cond.(*ast.BinaryExpr); ok && b.Op == token.NEQ && sfIsAccErrCall(si, b.X, srObj) && sfIsNil(si, b.Y) {
+							if rr, ok := i2.Body.List[0].(*ast.ReturnStmt); ok && len(rr.Results) == 2 && sfIsNil(si, rr.Results[0]) && sfIsAccErrCall(si, rr.Results[1], srObj) {
+								k, acc = 2, true
+							}
+						}
+					}
+					q := mk()
+					q.m[dataR], q.rev[si.Defs[dId]] = si.Defs[dId], dataR
+					nsr := 1
+					if acc {
+						nsr = 3
+					}
+					if sameRest(q, rest, sst[k:]) && sfUses(si, sd.Body, srObj) == nsr {
+						return "body-fn", acc
+					}
+				}
+			}
+		}
+	}
+	// (B)
+	q := mk()
+	q.data, q.sr, q.hd = dataR, srObj, hdObj
+	if sameRest(q, rest, sst) && q.nData == 1 && sfUses(si, sd.Body, srObj) == 1 && sfUses(ri, rd.Body, dataR) == 1 {
+		return "body-fn", false
+	}
+	return "", false
+}
+
+func sfCopyMap(m map[types.Object]types.Object) map[types.Object]types.Object {
+	c := make(map[types.Object]types.Object, len(m))
+	for k, v := range m {
+		c[k] = v
+	}
+	return c
 }
 
 // containerCall: stmt is `x, err := F(hdr, startPos+8, startPos+hdr.Size, rd)` with F the package-level function `name`
@@ -1633,6 +1812,24 @@ func (w *sfWorld) encDelegating(fo *types.Func, encSW *types.Func) string {
 		return "named result"
 	}
 	st := fd.Body.List
+	if w.encPrelude != "" {
+		// ENC-PRELUDE: one leading statement `b.m()` (a method of the receiver without parameters or results) that is ALSO the first
+		// statement of EncodeSW, then the delegation pattern
+		if len(st) != 6 {
+			return "no prelude + delegation pattern"
+		}
+		m := w.preludeCall(info, st[0], recvObj)
+		sd := w.decls[encSW]
+		if m == nil || sd == nil || sd.Body == nil || len(sd.Body.List) == 0 || len(sd.Recv.List) != 1 || len(sd.Recv.List[0].Names) != 1 {
+			return "statement 1 is not a call `b.m()` of a method of the receiver"
+		}
+		si := w.infoOf[encSW]
+		if w.preludeCall(si, sd.Body.List[0], si.Defs[sd.Recv.List[0].Names[0]]) != m {
+			return "EncodeSW does not start with the same call"
+		}
+		w.encPrelude = m.Name()
+		st = st[1:]
+	}
 	if len(st) != 5 {
 		return fmt.Sprintf("body has %d statements, the delegation pattern has 5", len(st))
 	}
@@ -1725,6 +1922,31 @@ func (w *sfWorld) encDelegating(fo *types.Func, encSW *types.Func) string {
 		return "statement 5 is not `return err`"
 	}
 	return ""
+}
+
+// preludeCall: stmt is `recv.m()` with m a method without parameters and results
+func (w *sfWorld) preludeCall(info *types.Info, st ast.Stmt, recv types.Object) *types.Func {
+	es, ok := st.(*ast.ExprStmt)
+	if !ok {
+		return nil
+	}
+	c, ok := es.X.(*ast.CallExpr)
+	if !ok || len(c.Args) != 0 {
+		return nil
+	}
+	se, ok := c.Fun.(*ast.SelectorExpr)
+	if !ok || !sfIs(info, se.X, recv) {
+		return nil
+	}
+	m := sfCallee(info, c)
+	if m == nil {
+		return nil
+	}
+	sig := m.Type().(*types.Signature)
+	if sig.Recv() == nil || sig.Params().Len() != 0 || sig.Results().Len() != 0 {
+		return nil
+	}
+	return m
 }
 
 // encTwin: Encode and EncodeSW are the same program up to local names, the writer, and the swaps of sfEq.enc
@@ -1854,6 +2076,9 @@ func sfExtract(repo string) ([]sfDecFact, []sfEncFact, *sfWorld, error) {
 					cl = w.leafClass(r.fn, s.fn)
 				}
 				if cl == "" {
+					cl, f.AccErr = w.bodyFnClass(r.fn, s.fn)
+				}
+				if cl == "" {
 					f.Class = "separate"
 				} else {
 					f.Class, f.WhyNot = cl, ""
@@ -1911,10 +2136,21 @@ func sfExtract(repo string) ([]sfDecFact, []sfEncFact, *sfWorld, error) {
 		if enc == nil || encSW == nil {
 			continue
 		}
+		w.encPrelude = ""
 		why := w.encDelegating(enc, encSW)
 		class := "delegating"
+		prelude := ""
+		if why != "" {
+			w.encPrelude = "?"
+			if w.encDelegating(enc, encSW) == "" {
+				prelude = w.encPrelude
+			}
+			w.encPrelude = ""
+		}
 		switch {
 		case why == "":
+		case prelude != "":
+			class, why = "prelude", prelude
 		case w.oneCall(enc, "EncodeContainer", 2) && w.oneCall(encSW, "EncodeContainerSW", 2):
 			class, why = "container", ""
 		case w.oneCall(enc, "EncodeHeader", 2) && w.oneCall(encSW, "EncodeHeaderSW", 2):
@@ -1962,9 +2198,9 @@ func sfBool(b bool) string {
 	return "false"
 }
 
-var sfCoqClass = map[string]string{"pure-twin": "CPureTwin", "raw-body": "CRawBody", "delegating": "CDelegating", "container-twin": "CContainerTwin", "container-body": "CContainerBody", "separate": "CSeparate"}
+var sfCoqClass = map[string]string{"body-fn": "CBodyFn", "pure-twin": "CPureTwin", "raw-body": "CRawBody", "delegating": "CDelegating", "container-twin": "CContainerTwin", "container-body": "CContainerBody", "separate": "CSeparate"}
 
-var sfCoqEncClass = map[string]string{"delegating": "EDelegating", "container": "EContainer", "header": "EHeader", "twin": "ETwin", "separate": "ESeparate"}
+var sfCoqEncClass = map[string]string{"prelude": "EPrelude", "delegating": "EDelegating", "container": "EContainer", "header": "EHeader", "twin": "ETwin", "separate": "ESeparate"}
 
 func sfRenderCoq(decs []sfDecFact, encs []sfEncFact) []byte {
 	var b bytes.Buffer
